@@ -5,7 +5,7 @@
 (* (set of failed clauses) is printed as one JSON line when non-empty.     *)
 (* Acceptance = every line of the trace file was consumed.                 *)
 (***************************************************************************)
-EXTENDS JudgeTx, JudgeSat, JudgeGraph, Json, IOUtils
+EXTENDS JudgeTx, JudgeSat, JudgeGraph, JudgeLint, JudgeApi, Json, IOUtils
 
 Tr == ndJsonDeserialize(IOEnv.TRACE_FILE)
 
@@ -18,6 +18,9 @@ JudgeEvent(e) ==
     [] e.kind = "signal_probability" -> Judge_signal_probability(e)
     [] e.kind = "dimacs"       -> Judge_dimacs(e)
     [] e.kind = "graph"        -> Judge_graph(e)
+    [] e.kind = "lint"         -> Judge_lint(e)
+    [] e.kind = "lint_output"  -> Judge_lint_output(e)
+    [] e.kind = "api_history"  -> Judge_api_history(e)
     [] OTHER -> {"MACHINERY:unknown_kind"}
 
 VARIABLE l
